@@ -44,6 +44,16 @@ def gen_cases(rng, tier):
         mid = [rng.choice(RO) for _ in range(rng.randrange(3, 8))]
         pre = ['corrupt 1'] if rng.random() < 0.3 else []
         cases.append(['tear 1', 'logsum'] + pre + mid + ['logsum', 'c 0', 'c 1', 'c 2', 'tear 0'] + (['corrupt 0'] if pre else []))
+    # an Open that fails after it took the lock, while another handle holds the directory: the lock of the handle that
+    # stays must survive it (a failed Open releases its own lock only), so a conflicting Open afterwards still fails
+    for keep in ('o 0 1 0', 'o 0 1 2', 'o 2 1 0 child'):
+        for dmg, fix in (('corrupt 1', 'corrupt 0'), ('tear 1', 'tear 0')):
+            for failing in (['o 1 1 1'], ['o 1 1 2'], ['o 1 1 1', 'o 1 1 2'], ['o 1 1 1', 'o 1 1 1', 'o 1 1 1']):
+                if keep.startswith('o 2') and dmg == 'tear 1':
+                    continue
+                for after in (['o 1 0 0'], ['o 1 0 1'], ['o 1 1 0', 'c 1', 'o 1 0 0']):
+                    first = [dmg, keep] if keep.split()[3] == '0' else [keep, dmg]
+                    cases.append(first + failing + [fix] + after + ['c 0', 'c 2', 'c 1', 'o 1 0 0', 'p 1', 'c 1'])
     out = []
     for i, seq in enumerate(cases):
         out.append(['case f%d' % i, 'prep %d' % rng.choice([1, 3, 6])] + no_corruption_under_a_writer(seq))
